@@ -24,7 +24,7 @@ Section TwoMachines.
   Lemma x_run_acts : forall l c, run_acts n1 l c = run_acts n2 l c.
   Proof.
     induction l as [|a l IH]; intros c; simpl; auto.
-    destruct a as [e tag|x]; auto.
+    destruct a as [e tag|x|s]; auto.
     rewrite agree. destruct (n2 _ c) as [c' v|c' x|]; auto.
   Qed.
 
